@@ -228,6 +228,12 @@ class DataBlock(ByteBlock):
         proto_dataobject.size = self.size
         return proto_dataobject
 
+    def deep_eq(self, other: object) -> bool:
+        # Do not move __eq__. See docstring for Node.deep_eq for more info.
+        if not isinstance(other, DataBlock):
+            return False
+        return super().deep_eq(other)
+
     def __repr__(self) -> str:
         return (
             "DataBlock("
